@@ -128,7 +128,7 @@ def fd_body(ctx, case):
     Hphi = H @ s0.phi
     want = np.vdot(s0.psi, Hphi) / s0.ovlp_exact
     escale = (float(np.sum(np.abs(s0.psi) * np.abs(Hphi))) + 1e-3 * _hnorm(case["ham"]) * s0.scale) / abs(s0.ovlp_exact) * max(1.0, s0.cond) ** 2 + 1e-300
-    errs = []
+    errs, cerrs = [], []
     for eps in EPS_LADDER:
         s = measure.Setup(case, eps=eps)
         try:
@@ -137,6 +137,8 @@ def fd_body(ctx, case):
             ctx.fail(f"energy-fd:raised-{type(e).__name__}:{s.kind}", case, f"eps={eps}: {type(e).__name__}: {e}")
             return
         errs.append(abs(got - want))
+        cerrs.append(np.asarray([complex(got - want)]))
+    share = measure.first_order_share(cerrs, EPS_LADDER)
     # quadratic convergence: each halving of eps reduces the error at least threefold, unless it is already at round-off level
     nchol = np.asarray(case["ham"]["chol"]).shape[0]
     floor = 1e-9 * escale + 1e-8 * nchol * (s0.scale / abs(s0.ovlp_exact)) * max(1.0, s0.cond) ** 2
@@ -145,6 +147,9 @@ def fd_body(ctx, case):
             ctx.count("fd-ladder:already-exact")
             continue
         if not (b <= a / 3.0 + floor):
+            if share <= 0.2:  # higher even order opposing the quadratic term; no term linear in eps (measure.first_order_share)
+                ctx.count("fd-ladder:ratio-below-3-but-no-first-order-term")
+                continue
             ctx.fail(f"energy-fd:not-quadratic:{s0.kind}", case, f"errors {errs} for eps {EPS_LADDER}: ratio {a / max(b, 1e-300):.2f} < 3 between eps {e1} and {e2} (E_scale {escale:.3e})")
             return
     ctx.err(f"fd error at eps=1e-3 / E_scale [{s0.kind}]", errs[-1] / escale)
